@@ -132,6 +132,24 @@ def check_series(vals, shape, scale_checks=True):
                             % (tag, k, float(got), (want[0] / want[1] if isinstance(want, tuple) and want[1] else want), list(vals), shape))
     compare(s, lambda x: x, "Series", ref)
     compare(s, lambda x: x, "Series(rf=0.03)", ref_rf)
+    # VaR / expected shortfall at other (dyadic: exact order-statistic positions) quantile levels - with ties among the returns the
+    # tail "at or below the VaR" contains every return equal to it
+    if rets:
+        df1 = s.to_frame("a")
+        for q in (0.25, 0.5, 0.75, 1.0):
+            var = quantile(rets, q)
+            es = mean([r for r in rets if r <= var])
+            for tag, obj, pick in (("Series", s, lambda x: x), ("DataFrame", df1, lambda x: x["a"])):
+                try:
+                    gv, ge = pick(obj.value_at_risk(q)), pick(obj.expected_shortfall(q))
+                except Exception as ex:
+                    msgs.append("%s value_at_risk/expected_shortfall(%s) raised %r on %s (%s)" % (tag, q, ex, list(vals), shape))
+                    continue
+                if not eq(gv, var):
+                    msgs.append("%s value_at_risk(%s) = %r, definition gives %r for levels %s (%s)" % (tag, q, float(gv), var, list(vals), shape))
+                if not eq(ge, es):
+                    msgs.append("%s expected_shortfall(%s) = %r but the mean of the returns <= VaR (%r) is %r for levels %s (%s)"
+                                % (tag, q, float(ge), var, es, list(vals), shape))
     # series-valued metrics
     try:
         sr = list(s.simple_returns())
@@ -397,7 +415,7 @@ def run(tier, **kw):
     rep.set("exhaustive", True)
     rep.set("rule", "metrics: ALL level series of length 2..%d over the value alphabet {1,2,4,3,1.5,0.75} x 5 index shapes (consecutive days, weekend gap, "
                     "intraday stamps collapsing to daily levels, month gaps, mixed) spanning >= 1 calendar day: 12 scalar metrics (with and without a scalar "
-                    "risk-free rate), 3 series-valued metrics, a 2-column DataFrame, a risk-free level series, tracking error against a benchmark, and 5 "
+                    "risk-free rate), VaR and expected shortfall also at quantile levels 0.25/0.5/0.75/1, 3 series-valued metrics, a 2-column DataFrame, a risk-free level series, tracking error against a benchmark, and 5 "
                     "scalings; corruptions: every single-defect variant (NaN / 0 / negative at each position, duplicated stamp, swapped adjacent stamps, "
                     "integer / string / NaT index) of every series over 4 values up to length 4 x every metric; tearsheet rows of a TrackRecord fed with the path; "
                     "non-trivial = distinct case whose daily levels are not all equal" % maxlen)
